@@ -11,4 +11,5 @@ PROP = {'level': 'proof',
                'slice semantics as modelled; harness, driver glue and ./check.',
  'trusted': ["Model.Wire mirrors packet.go/attributes.go by hand; tied by this run's correspondence and by Facts.Tie (limits 20/4096/253/2 re-probed "
              'from the code)'],
- 'assumptions': ['Go slice/append/copy semantics as mirrored in RV.Model.Wire']}
+ 'assumptions': ['Go slice/append/copy semantics as mirrored in RV.Model.Wire'],
+ 'facts': ['maxPacketLengthConst', 'parseMinBuf', 'lenFieldMin', 'lenFieldMax', 'lenBeyondBuffer', 'attrLenMin', 'attrValMax', 'marshalMax']}
